@@ -169,6 +169,10 @@ def show_obs(o):
             "changed": {c["n"]: decode(c["p"]) for c in o.get("ch", [])}}
 
 
+def failed(o):
+    return o is None or o.get("k") in ("crash", "hang") or bool(o.get("err") or o.get("apierr") or o.get("screrr"))
+
+
 class Driver:
     def __init__(self, cx, binpath):
         self.cx = cx
@@ -183,6 +187,12 @@ class Driver:
         self.cx.run([self.bin, "apply", "-in", inp, "-out", out], timeout=1500)
         res = {r["id"]: r for r in vlib.read_ndjson(out)}
         os.remove(inp)
+        # a worker that was starved (hang / script timeout) or died is given one more chance, alone
+        again = [r for r in rows if failed(res.get(r["id"]))]
+        if again and len(again) <= 50 and tag != "retry":
+            for rid, o in self.apply(again, "retry").items():
+                if not failed(o):
+                    res[rid] = o
         return res
 
 
@@ -259,7 +269,7 @@ def run(cx):
     if quick:
         mc = cx.tlc("ContainersGen", cfg_text=gen_cfg("mc", 2, ("a", "b"), (-3, -1, 0, 2), props=True), workers=8, name="mc")
     else:
-        mc = cx.tlc("ContainersGen", cfg_text=gen_cfg("mc", 3, ("a",), (-3, -1, 2), props=True), workers=12, name="mc",
+        mc = cx.tlc("ContainersGen", cfg_text=gen_cfg("mc", 3, ("a", "b"), (-3, -1, 0, 2), props=True), workers=12, name="mc",
                     timeout=2400, heap="8g")
     cx.tlc_must_pass(mc, "ContainersGen (leg M: the model violates one of its own properties or failed)")
     if mc.distinct < 1000:
@@ -277,8 +287,8 @@ def run(cx):
     n_enum = len(ghists)
     en.lines = en.out = None
     simlen = 12 if quick else 40
-    nsim = 1500 if quick else 5000
-    shists = simulate(cx, simlen, nsim, 8)
+    nsim = 1500 if quick else 16000
+    shists = simulate(cx, simlen, nsim, 8 if quick else 12)
     if n_enum < 500 or len(shists) < nsim // 2:
         raise vlib.Inconclusive("generation produced too few histories (enum %d, sim %d)" % (n_enum, len(shists)))
     ghists += shists
@@ -312,7 +322,7 @@ def run(cx):
 
     for row, h in zip(grows, ghists):
         o = gobs.get(row["id"])
-        if o is None or o.get("k") in ("crash", "hang") or o.get("err") or o.get("apierr") or o.get("screrr"):
+        if failed(o):
             harness_fail.append(("G", row["id"], row["steps"], o))
             continue
         account(row["steps"], o)
@@ -331,7 +341,7 @@ def run(cx):
     cx.log("leg G applied: %d histories, %d suspects" % (len(grows), len(suspects)))
 
     # ------------------------------------------------------------------ leg V: histories drawn in Go, validated by the trace spec
-    nv = 1500 if quick else 8000
+    nv = 1500 if quick else 24000
     vlen = 16 if quick else 48
     vin = cx.path("v_hist.ndjson")
     cx.run([drv.bin, "gen", "-seed", str(cx.seed), "-n", str(nv), "-len", str(vlen), "-out", vin, "-base", "2000000"])
@@ -343,7 +353,7 @@ def run(cx):
     by_id = {}
     for row in vrows:
         o = vobs.get(row["id"])
-        if o is None or o.get("k") in ("crash", "hang") or o.get("err") or o.get("apierr") or o.get("screrr"):
+        if failed(o):
             harness_fail.append(("V", row["id"], row["steps"], o))
             continue
         account(row["steps"], o)
